@@ -103,6 +103,10 @@ func New() *Model {
 		mode: mode{
 			decawm:  true,
 			dectcem: true,
+			// Alternate scroll is on until the application resets
+			// mode 1007. It is only used in the alt screen, and only
+			// if the application doesn't enable mouse
+			altScroll: true,
 		},
 		primaryState: cursorState{
 			charsets: charsets{
